@@ -1,7 +1,10 @@
 (* C03 — executable model of the index selection of every dataset-manipulation
    wrapper (kappadata/wrappers/dataset_wrappers/*.py, utils/class_counts.py),
    constructor by constructor, for the repaired code (fixes C03_zero_end_bound,
-   C03_oversampling_exact_absent_class).  Input: the class label of every sample
+   C03_oversampling_exact_absent_class, C03_oversampling_multiply_float32,
+   C03_oversampling_exact_unlabeled, C03_sort_by_class_unlabeled,
+   C03_intra_class_shuffle_unlabeled, C03_intra_class_shuffle_global_rng).  A label -1 marks an
+   unlabeled sample (utils/class_counts.py); it belongs to no class.  Input: the class label of every sample
    (position = sample id), the number of classes C = dataset.getdim_class(), the
    constructor arguments and the recorded generator outputs.  Output: the list of
    selected sample ids in order, None = the constructor raised.  No proofs here. *)
@@ -50,8 +53,9 @@ Definition class_filter (valid : bool) (cls : list Z) (classes : list Z) : list 
 (* The percent wrappers are written over an abstract percent type with its operations
    (0., 1., the assertion 0. <= p <= 1., <=, and the percent -> index map
    `p_cut ceil p n` = int(p * n) or np.ceil(p * n)), so that the theorems can state what they
-   need of them; the executable binary64 instance float_ops is in ModelFloat.v (kept apart so
-   that the theorems' module closure contains no primitive floats). *)
+   need of them; the executable instances float_ops (binary64) and float32_ops (binary32, used by
+   ClasswiseSubsetWrapper) are in ModelFloat.v (kept apart so that the theorems' module closure
+   contains no primitive floats). *)
 Record pct_ops (P : Type) : Type := {
   p_zero : P; p_one : P; p_ok : P -> bool; p_leb : P -> P -> bool; p_cut : bool -> P -> Z -> Z }.
 Arguments p_zero {P}. Arguments p_one {P}. Arguments p_ok {P}. Arguments p_leb {P}. Arguments p_cut {P}.
@@ -99,7 +103,7 @@ Definition repeat_wrapper (n : Z) (reps min_size : option Z) : option (list Z) :
 (* ---------------- OversamplingWrapper ---------------- *)
 Definition multiply_block (classes : list Z) (mx : Z) (i cnt : Z) : list Z :=
   if cnt =? 0 then []
-  else let factor := mx / cnt - 1 in
+  else let factor := mx / cnt - 1 in          (* max_class_count // class_counts[i].item() - 1 (integer division) *)
        if 0 <? factor then concat (repeat (positions i classes) (Z.to_nat factor)) else [].
 
 (* the while-loop of mode="exact"; None = out of fuel (the loop did not finish) *)
@@ -134,18 +138,26 @@ Definition oversample (exact : bool) (classes : list Z) (C : Z) : option (list Z
       let mx := zmax counts in
       let ids := zrange 0 (zlen counts) in
       if exact then
-        if mx =? 0 then None                                 (* torch.concat of an empty list raises *)
-        else concat_opt (map (fun '(i, cnt) => exact_block classes mx i cnt) (combine ids counts))
+        match concat_opt (map (fun '(i, cnt) => exact_block classes mx i cnt) (combine ids counts)) with
+        | Some blocks => Some (blocks ++ positions (-1) classes)   (* the fix: unlabeled samples are kept once *)
+        | None => None
+        end
       else
         Some (zrange 0 n ++ concat (map (fun '(i, cnt) => multiply_block classes mx i cnt) (combine ids counts)))
   end.
 
 (* ---------------- SortByClassWrapper ---------------- *)
+(* for i in range(-1, num_classes): the unlabeled samples first (the fix), then class 0, 1, ... *)
 Definition sort_by_class (classes : list Z) (C : Z) : list Z :=
-  concat (map (fun c => positions c classes) (zrange 0 C)).
+  concat (map (fun c => positions c classes) (zrange (-1) C)).
 
 (* ---------------- IntraClassShuffleWrapper ---------------- *)
-(* draws: one permuted copy of positions(c) per class c *)
+(* draws: one permuted copy of positions(c) per class c = 0 .. C-1, then one of the unlabeled
+   samples (the fix).  cls_to_perm is a dict with the keys 0 .. C-1 and -1, held here as the list of
+   its values in insertion order; `slot` is the key -> position map, -1 = KeyError *)
+Definition slot (C c : Z) : Z :=
+  if c =? -1 then Z.max 0 C else if (0 <=? c) && (c <? C) then c else -1.
+
 Fixpoint set_nth {A} (k : nat) (x : A) (l : list A) : list A :=
   match l, k with
   | [], _ => []
@@ -169,7 +181,7 @@ Fixpoint intra_go (classes : list Z) (perms : list (list Z)) : option (list Z) :
   end.
 
 Definition intra_class_shuffle (classes : list Z) (C : Z) (draws : list (list Z)) : option (list Z) :=
-  if negb (Nat.eqb (length draws) (Z.to_nat C)) then None else intra_go classes draws.
+  if negb (Nat.eqb (length draws) (S (Z.to_nat C))) then None else intra_go (map (slot C) classes) draws.
 
 (* ---------------- FewshotWrapper ---------------- *)
 (* draws: rng.permutation(len(cur_indices)) per class 0 .. max(classes) *)
